@@ -15,20 +15,26 @@ def to_py_item(j, npint=False):
     if j == "...":
         return Ellipsis
     step1 = npint == 2          # spelling 2: every slice without a step is written with the explicit step 1
-    npint = npint is True or npint == 1
-    cv = (lambda x: None if x is None else np.int64(x)) if npint else (lambda x: x)
+    unsigned = npint == 3       # spelling 3: non-negative integers as unsigned numpy integers (negative ones as int64)
+    npint = npint is True or npint == 1 or unsigned
+    def _np(x):
+        if abs(x) >= 2 ** 62:
+            return int(x)                  # (beyond int64: stays a Python integer)
+        return np.uint16(x) if (unsigned and 0 <= x < 60000) else np.int64(x)
+    cv = (lambda x: None if x is None else _np(x)) if npint else (lambda x: x)
     if isinstance(j, dict):
         a, b, c = j["s"]
         if step1 and c is None:
             c = 1
         return slice(cv(a), cv(b), cv(c))
-    return np.int64(j) if npint else int(j)
+    return _np(j) if npint else int(j)
 
 
 def npint_of(case):
     """The spelling of a case's index entries, derived from the case: 1 = numpy integers instead of Python ints
-    (about one case in six), 2 = slices written with the explicit default step 1 (another sixth), 0 = plain."""
-    return {0: 1, 3: 2}.get(case.get("wseed", 1) % 6, 0)
+    (about one case in six), 2 = slices written with the explicit default step 1 (another sixth), 3 = unsigned
+    numpy integers (another sixth), 0 = plain."""
+    return {0: 1, 3: 2, 5: 3}.get(case.get("wseed", 1) % 6, 0)
 
 
 def to_py_index(items, bare=False, npint=False):
